@@ -41,6 +41,21 @@ CHECKS = {
     "C10": _nc("Netcode.tla: two tokens for one id + a third identity, 3 slots, honest exchanges and disconnects in any order (7 steps): two "
                "half-open sessions for one id, slots freed in front of an established session; clauses C10_Unique, C10_Bounded, "
                "C10_EventsMatch, C10_Lookups, C10_FullRefuses on the table snapshot after every server call; replay + seeded histories."),
+    "C16": _msg("MC_Wire.tla: the pending-ack range list (add_pending_ack as transcribed in Renet.tla, cap 3) under every arrival order of up "
+                "to 7 sequence numbers out of 10 stays sorted / disjoint / non-adjacent / within the cap / a subset of what arrived, and the "
+                "delta coding of ack packets satisfies Decode(Encode(r)) = r on every reachable list; every list is exported, shifted across "
+                "the varint width boundaries and round-tripped through the real encoder/decoder; packets of every kind with fields at "
+                "0/1/63/64/16383/16384/2^30-1/2^30/2^62-1; netcode packets of every kind x 15 sequence values x payload lengths; tokens with "
+                "1..32 IPv4/IPv6 addresses through write/read and seal/open; decode-reencode-decode on valid, truncated, byte-replaced and random "
+                "strings and on live session datagrams; C16_AckSet: the ack packet of every flush equals verif_pending_acks."),
+    "C20": {"category": "exploration",
+            "text": "The real NetcodeServerTransport / NetcodeClientTransport over loopback UDP behind a harness-owned relay that drops, "
+                    "duplicates, holds, re-injects (replays) and bit-corrupts datagrams per schedule; 2-4 clients, staggered joins, application / "
+                    "client / transport initiated disconnects, cut-off clients; clauses C20_LockStep (renet ids = netcode ids = client_addr map "
+                    "after every server update), C20_EventsOnce, C20_BothSides, C20_OnlyTimeouts, C20_Connects, end-to-end E2E_Same / _Ordered / "
+                    "_Once / _Live. No TLA+ model of the transport glue yet: level exploration (observer in TLA+, traces validated by TLC).",
+            "note": "Trusted: TLC, spec/TransportObs.tla, loopback UDP (synchronous delivery, bounded poll otherwise); time is virtual (duration argument).",
+            "technique": "seeded relay fault schedules on the real UDP stack + TLC trace validation against the TLA+ observer"},
     "C17": _nc("(a) every sampled bit position and truncation length of sample datagrams of every kind, and all 64 single-bit variants of the "
                "protocol id, must yield no content and no effect (C17_TamperEvident); (b) C17_NonceUnique over every datagram either side "
                "emits (key, sequence -> byte hash) in all model-exported handshake / denial / retry / disconnect histories (Netcode.tla, two "
@@ -86,7 +101,8 @@ CHECKS = {
                 "C12_Alternation, C12_Reason; every model state replayed; seeded-random call sequences up to 25 calls including local clients."),
     "C13": _msg("(message layer) TLC explores messages around the packing threshold with ids/sequences across varint width boundaries "
                 "(PacketLen of the wire model <= 1300, no serialization failure); replay; seeded schedules with counters started at 2^6, 2^14, "
-                "2^30, 2^62-400 and up to 150 widely spaced / descending / zig-zag sequence numbers feeding the pending ack ranges."),
+                "2^30, 2^62-400 and up to 150 widely spaced / descending / zig-zag sequence numbers feeding the pending ack ranges; (netcode "
+                "layer) every datagram emitted in the handshake / payload histories (payloads up to 1300 bytes) is at most 1400 bytes."),
     "C14": _msg("TLC explores tight budgets (1200 B with a 2400 B reliable message, 100 B with three 100 B unreliable messages, 150+50 B) "
                 "over several ticks; clauses C14_Bound, C14_Order, C14_UnreliableWhole; replay + seeded-random schedules over all channel "
                 "orders and budgets 0..60000."),
